@@ -24,7 +24,7 @@ type vC05gPs struct {
 	known []ma.Multiaddr
 }
 
-func (p *vC05gPs) Addrs(peer.ID) []ma.Multiaddr                        { return p.known }
+func (p *vC05gPs) Addrs(peer.ID) []ma.Multiaddr                          { return p.known }
 func (p *vC05gPs) AddAddrs(_ peer.ID, a []ma.Multiaddr, _ time.Duration) {}
 
 type vC05gResolver struct{ answer []ma.Multiaddr }
